@@ -22,6 +22,7 @@ import itertools
 from .. import astutil as A
 from ..alg import Interp, Obj, Poly, PyFunc, Undecided, fn, to_poly
 from ..dep import Deps
+from .. import listnp
 
 EXPLANATION = (
     "Every modifier applier registered in histfactory_set is abstractly interpreted (mask present / absent) with the "
@@ -88,6 +89,9 @@ def run(ctx):
     r5 = ctx.rule("C01.R5", "ORDER: mask modifier axis = keys built from the same `modifiers` list as the parameter selection; sample axis = pdfconfig.samples; nominal rates over config.samples; bin-index fields over pdfconfig.channels x channel_nbins", "ORDER", floor=12)
     r6 = ctx.rule("C01.R6", "SHAPE: in every applier einsum the output has the four axis roles (modifier, sample, batch, bin) of the mask operand; the operand that carries parameter values is never indexed by the sample axis (a modifier's effect on a sample is decided by the mask alone) and its modifier letter, if present, is the output's first; builder data keep their up/down roles from the specification to the interpolator (lo, nominal, hi)", "SHAPE", floor=10)
     r7 = ctx.rule("C01.R7", "DEP: parameter requirements are registered under the modifier name and appliers select parameters by those names", "DEP", floor=13)
+
+    r8 = ctx.rule("C01.R8", "ACCESS: interpreting the constructors of the bin-wise appliers (staterror, shapesys, shapefactor) on a concrete 2-modifier x 2-sample x 3-channel x 4-bin configuration, with and without batching, the stored access field sends every bin the modifier acts on to that modifier's own parameter index for the bin (also when its bins are not contiguous and when it is carried only by the last sample)", "ACCESS", floor=6)
+    _access_fields(ctx, r8, reg)
 
     for key, (b, c) in sorted(reg.items()):
         for m in list(b.methods.values()) + list(c.methods.values()):
@@ -410,3 +414,55 @@ def _tags(v):
         for x in v:
             out += _tags(x)
     return out
+
+
+def _access_fields(ctx, rid, reg):
+    at = Poly.atom
+    T, F_ = True, False
+    channels = ["cz", "ca", "cm"]  # not sorted: the appliers follow pdfconfig.channels
+    nb = {"cz": 1, "ca": 1, "cm": 2}
+    samples = ["s1", "s2"]
+    # global bins: cz:0 | ca:0 | cm:0,1
+    masks = {
+        "mZ": {"s1": [F_, F_, F_, F_], "s2": [T, F_, T, T]},  # non-contiguous, carried by the last sample only
+        "mA": {"s1": [F_, T, F_, F_], "s2": [F_, T, F_, F_]},
+    }
+    sel = {"mZ": ["Z0", "Z1", "Z2"], "mA": ["A0"]}
+    want_mask = {"mZ": ["Z0", "0", "Z1", "Z2"], "mA": ["0", "A0", "0", "0"]}
+    # shapefactor shares the parameter of per-channel bin j between channels: index by position inside the channel
+    sel_sf = {"mZ": ["Z0", "Z1"], "mA": ["A0"]}
+    want_sf = {"mZ": ["Z0", "Z0", "Z0", "Z1"], "mA": ["A0", "A0", "A0", "0"]}
+    for key in ("staterror", "shapesys", "shapefactor"):
+        if key not in reg:
+            ctx.unrecognised(rid, None, key, "bin-wise modifier missing from the registry")
+            continue
+        b, c = reg[key]
+        init = c.methods["__init__"]
+        mods = [("mZ", key), ("mA", key)]
+        the_sel, want = (sel_sf, want_sf) if key == "shapefactor" else (sel, want_mask)
+        for bs in (None, 2):
+            rows = bs or 1
+            bd = {f"{key}/{m}": {s_: {"data": {"mask": list(masks[m][s_]), "nom_data": [at(f"n@{m}@{s_}@{j}") for j in range(4)], "uncrt": [at(f"u@{m}@{s_}@{j}") for j in range(4)]}} for s_ in samples} for m, _ in mods}
+            seen = {}
+
+            def pv(a, k, seen=seen, rows=rows, the_sel=the_sel):
+                seen["names"] = list(a[2])
+                return Obj("PV", {"index_selection": [[[at(x) for x in the_sel[n]] for _ in range(rows)] for n in a[2]], "indices_concatenated": at("IDX")})
+
+            ext = listnp.externals()
+            ext.update({"ParamViewer": pv, "_precompute": lambda a, k: None, "subscribe": lambda a, k: PyFunc(lambda a2, k2: None, "subscriber")})
+            cfg = Obj("pdfconfig", {"samples": list(samples), "channels": list(channels), "channel_nbins": {c_: Poly.const(n) for c_, n in nb.items()}, "npars": Poly.const(6), "par_map": Obj("PARMAP")})
+            attrs = {}
+            env = {"modifiers": list(mods), "pdfconfig": cfg, "builder_data": bd, "batch_size": None if bs is None else Poly.const(bs), "pyhf": Obj("pyhf", {"default_backend": Obj("default_backend")}), "events": Obj("events")}
+            site = f"{c.relpath}::{c.name}.__init__ [interpreted, batch_size={bs}]"
+            try:
+                Interp(env, attrs, {}, methods={n: m.node for n, m in c.methods.items()}, cls_name=c.name, externals=ext).run(A.strip_docstring(init.node.body))
+                acc = attrs.get("_access_field")
+                got = [[[str(to_poly(x)) for x in row] for row in mod] for mod in acc]
+                exp = [[list(want[m]) for _ in range(rows)] for m in seen.get("names", [])]
+                if seen.get("names") == ["mZ", "mA"] and got == exp:
+                    ctx.holds(rid, site, f"access field {got[0][0]} / {got[1][0]} x {rows} row(s)")
+                else:
+                    ctx.violated(rid, init, f"{c.name} access field [batch_size={bs}]", "the access field does not send each bin a bin-wise modifier acts on to that modifier's own parameter for the bin" + (" (position of the bin inside its channel)" if key == "shapefactor" else " (k-th masked bin -> k-th parameter; the modifier's bins need not be contiguous)"), expected=str(exp), found=str(got))
+            except (Undecided, KeyError, TypeError, ValueError, IndexError, AttributeError) as e:
+                ctx.unrecognised(rid, init, f"{c.name}.__init__ [batch_size={bs}]", f"not interpretable: {type(e).__name__}: {e}")
